@@ -610,4 +610,75 @@ theorem parseLR_direct_eq_parse_iterative_ws_partial {g : Grammar} {E m sq b t0 
   | idx => exact absurd hbv hbidx
   | hang => exact SameButEnd.refl _ _
 
+/-! non-vacuity of `parseLR_direct_eq_parse_iterative_ws_partial`: `exG2` (flags of the live objects) on "1 +1 " — whitespace
+    before the operator and after the last operand -/
+def exSw : List Char := ['1', ' ', '+', '1', ' ']
+
+def exSk (e : Nat) : Nat := skipWhite [' ', '\n', '\t', '\r'] exSw e
+
+example : parseLR exG2 exSw 6 [] 0 0 false true = .ok 4 [.s ['1'], .s ['+'], .s ['1']] ∧
+    parse exG2 exSw 6 5 0 false false = .ok 4 [.s ['1'], .s ['+'], .s ['1']] := ⟨rfl, rfl⟩
+
+theorem exG2_tail_end (s : List Char) (a : Bool) :
+    ∀ e e' ts', tailOf exG2 s 3 [3, 4] a e = .ok e' ts' → e' ≤ s.length := by
+  intro e e' ts' h1
+  rw [tailOf_cons exG2 s 3 3 [4] a e rfl] at h1
+  cases h3 : parse exG2 s 3 3 e a true with
+  | ok l tk =>
+    rw [h3] at h1
+    simp only at h1
+    rw [andRest] at h1
+    have hs4 : isStopOf exG2 4 = false := rfl
+    simp only [hs4, Bool.false_eq_true, if_false] at h1
+    cases h4 : parse exG2 s 3 4 l a true with
+    | ok l2 t2 =>
+      rw [h4] at h1
+      simp [andRest] at h1
+      obtain ⟨rfl, _⟩ := h1
+      exact parse_lit1_end_le exG2 s 2 4 _ '1' rfl rfl _ _ _ _ _ h4
+    | fail c l2 => rw [h4] at h1; simp at h1
+    | idx => rw [h4] at h1; simp at h1
+    | hang => rw [h4] at h1; simp at h1
+  | fail c l => rw [h3] at h1; simp at h1
+  | idx => rw [h3] at h1; simp at h1
+  | hang => rw [h3] at h1; simp at h1
+
+theorem exG2_t0_shift (e : Nat) (a : Bool) :
+    parse exG2 exSw 3 3 e a true = parse exG2 exSw 3 3 (exSk e) a false :=
+  parseStep_callPre_shift exG2 exSw (parse exG2 exSw 2) 3 (exNode (.lit1 '+')) e (exSk e) a rfl rfl rfl
+
+example : ∃ X, parseLR exG2 exSw 6 [] 0 0 false true = enhFix 0 X ∧
+    SameButEnd exSk X (parse exG2 exSw 6 5 0 false false) :=
+  parseLR_direct_eq_parse_iterative_ws_partial (g := exG2) (E := 0) (m := 1) (sq := 2) (b := 4) (t0 := 3) (I := 5)
+    (Z := 6) (R := 7) (rest := [4])
+    ⟨rfl, rfl, rfl, rfl, rfl, rfl, rfl, rfl, rfl⟩ ⟨rfl, rfl, rfl, rfl, rfl, rfl, rfl, rfl, rfl, rfl, rfl⟩
+    exSw (D := fun i => i = 3 ∨ i = 4)
+    { present := by intro i hi; rcases hi with rfl | rfl <;> exact ⟨_, rfl⟩
+      closed := by
+        intro i n hi hn c hc
+        rcases hi with rfl | rfl <;> (cases hn; simp [Node.children, Kind.children, exNode] at hc)
+      noFwd := by
+        intro i n e hi hn
+        rcases hi with rfl | rfl <;> (cases hn; simp [exNode]) }
+    (Or.inr rfl) (by intro t ht; simp at ht; exact ht) 2 [] 0 0 false true exSk exSk rfl (fun _ => rfl) rfl
+    (fun a e e' ts' h1 => tailOf_strict exG2 exSw 3 3 [4] rfl
+      (parse_lit1_strict exG2 exSw 2 3 _ '+' rfl rfl) a e e' ts' h1)
+    (by intro h; cases h) (by intro h; cases h)
+    (fun _ _ => rfl) (fun _ _ => rfl)
+    (fun e a => (exG2_t0_shift e a).symm)
+    (fun e a => by
+      rw [exG2_t0_shift (exSk e) a, exG2_t0_shift e a]
+      unfold exSk
+      rw [skipWhite_idem])
+    rfl
+    (by intro h; have e : baseOf exG2 exSw 4 4 0 false = .ok 1 [.s ['1']] := rfl
+        rw [e] at h; cases h)
+    (by intro h; have e : baseOf exG2 exSw 4 4 0 false = .ok 1 [.s ['1']] := rfl
+        rw [e] at h; cases h)
+    (by intro l h; have e : baseOf exG2 exSw 4 4 0 false = .ok 1 [.s ['1']] := rfl
+        rw [e] at h; cases h)
+    (by intro e0 ts0 h; have e : baseOf exG2 exSw 4 4 0 false = .ok 1 [.s ['1']] := rfl
+        rw [e] at h; cases h; decide)
+    (exG2_tail_end exSw false)
+
 end PP.Parse
